@@ -345,6 +345,24 @@ def run(res, tier, seed, replay_cases=None):
         cases = replay_cases
     else:
         cases = corpus_cases() + [gen_case(r, i, tier) for i in range(ncases)]
+        # a direction that is never refined (level limit 0) on the families with several unrelated roots (Wavelet 3^d / 5^d, localp-boundary, pwc):
+        # construction from an empty grid must still pick up every root whatever the batching (own stream, ids z<k>)
+        rz = vlib.rng(seed, PID + "-zero-limit")
+        for zi in range({"quick": 8, "thorough": 60}[tier]):
+            zc = gen_case(rz, 100000 + zi, tier)
+            zs = zc["spec"]
+            dz = 2 + zi % 2
+            zs.update({"family": ["wavelet", "localp"][zi % 4 == 3], "dims": dz, "outs": 1})
+            for k in ("type", "aw", "rule", "order"):
+                zs.pop(k, None)
+            if zs["family"] == "wavelet":
+                zs.update({"order": [1, 3][(zi // 2) % 2], "depth": 0})
+            else:
+                zs.update({"rule": "localp-boundary", "order": 1, "depth": 0})
+            zs["ll"] = [0] * dz
+            zs["ll"][rz.randrange(dz)] = 2
+            zc.update({"id": "z%d" % zi, "steps": [1, 2] if dz == 2 else [1], "start": "empty", "target": "complete", "cand_prob": 0.0, "cand_first": False})
+            cases.append(zc)
 
     # ---- pass 1: tables, base and reference point sets
     tabs, errs = run_parallel(drv, [tab_script(c) for c in cases], wd, "tab")
